@@ -1,7 +1,7 @@
 package props
 
 // C15 — exported crypto state resumes the session exactly; export only when
-// clean. E-BFS: all histories <= D over 10 operations (messages of 1 / 5000
+// clean. E-BFS: all histories <= D over 12 operations (messages of 1 / 5000
 // bytes each way, begin/finish a partial send, begin/finish a partial receive,
 // hand-off of either end) on two real streams; ExportCryptoState is attempted
 // on both ends in every state and compared with a reference model of
@@ -20,7 +20,7 @@ import (
 	"verif/vlib"
 )
 
-var c15Ops = []string{"AB1", "AB5000", "BA1", "BA5000", "A-psend-begin", "A-psend-finish", "A-precv-begin", "A-precv-finish", "handoff-A", "handoff-B"}
+var c15Ops = []string{"AB1", "AB5000", "BA1", "BA5000", "A-psend-begin", "A-psend-finish", "A-precv-begin", "A-precv-finish", "handoff-A", "handoff-B", "BA-queue", "A-recv-queued"}
 
 type c15End struct {
 	s         *stream.Stream
@@ -44,6 +44,9 @@ type c15World struct {
 	id   string
 	step int
 	held []byte // second frame of a message whose first frame A already consumed
+	// a complete further message of B that is already on A's connection (in flight in the
+	// transport) but not yet read by A: a hand-off of A must not lose or damage it
+	queued []byte
 }
 
 func (w *c15World) fail(key, f string, a ...any) bool {
@@ -168,7 +171,7 @@ func (w *c15World) stateKey() string {
 	f := func(e *c15End) string {
 		return fmt.Sprintf("s%d r%d ps%v pr%v h%d", min(e.sentProt, 3), min(e.recvProt, 3), e.pSend, e.pRecv, min(e.handoffs, 2))
 	}
-	return f(w.A) + " | " + f(w.B)
+	return f(w.A) + " | " + f(w.B) + fmt.Sprintf(" q%v", w.queued != nil)
 }
 
 // apply returns (enabled, ok).
@@ -181,7 +184,7 @@ func (w *c15World) apply(op string) (bool, bool) {
 		if op[0] == 'B' {
 			from, to = B, A
 		}
-		if from.pSend || to.pRecv {
+		if from.pSend || to.pRecv || (to == A && w.queued != nil) {
 			return false, true
 		}
 		n := 1
@@ -216,8 +219,49 @@ func (w *c15World) apply(op string) (bool, bool) {
 			return true, w.fail("auth-failure/partial-send", "peer could not read the finished partial message: %v", err)
 		}
 		return true, true
+	case "BA-queue":
+		// B pipelines two messages; A reads only the first: the second stays on the connection
+		if w.queued != nil || B.pSend || A.pRecv {
+			return false, true
+		}
+		m1, m2 := payload(w.step+11, 9), payload(w.step+12, 5000)
+		for _, m := range [][]byte{m1, m2[:4096]} {
+			var err error
+			if len(m) == 4096 {
+				if err = B.s.SendPartialMessage(ctx, m); err == nil {
+					err = B.s.SendMessage(ctx, m2[4096:])
+				}
+			} else {
+				err = B.s.SendMessage(ctx, m)
+			}
+			if err != nil {
+				return true, w.fail("send-error", "pipelined send: %v", err)
+			}
+		}
+		if !w.xfer(B, A) {
+			return true, false
+		}
+		got, err := A.s.ReceiveCompleteMessage(ctx)
+		if err != nil || !bytes.Equal(got, m1) {
+			return true, w.fail("data-mismatch", "first of two pipelined messages: %v", err)
+		}
+		w.queued = m2
+		return true, true
+	case "A-recv-queued":
+		if w.queued == nil || A.pRecv {
+			return false, true
+		}
+		got, err := A.s.ReceiveCompleteMessage(ctx)
+		if err != nil {
+			return true, w.fail(fmt.Sprintf("auth-failure/queued-message/handoffs=%d", min(A.handoffs, 2)), "the message that was already on the connection when A was handed off (%d hand-offs) could not be received: %v", A.handoffs, err)
+		}
+		if !bytes.Equal(got, w.queued) {
+			return true, w.fail("data-mismatch", "queued message altered across a hand-off")
+		}
+		w.queued = nil
+		return true, true
 	case "A-precv-begin":
-		if A.pRecv || B.pSend {
+		if A.pRecv || B.pSend || w.queued != nil {
 			return false, true
 		}
 		if err := B.s.SendPartialMessage(ctx, []byte("abcd")); err != nil {
@@ -337,6 +381,11 @@ func c15Run(id string, hist []int) *vlib.Result {
 			return res
 		}
 	}
+	if w.queued != nil {
+		if _, ok := w.apply("A-recv-queued"); !ok {
+			return res
+		}
+	}
 	for _, op := range []string{"AB1", "BA5000", "AB5000", "BA1"} {
 		if _, ok := w.apply(op); !ok {
 			return res
@@ -419,7 +468,7 @@ func c15BlobFaults(tier string) *vlib.Result {
 func C15Plan() *vlib.Plan {
 	p := &vlib.Plan{
 		Property: "C15", Level: "model_checking",
-		Rule:   "E-BFS: all histories of length <= D over 10 operations (1/5000-byte message each way, begin/finish partial send, begin/finish partial receive, hand-off of A, hand-off of B) replayed on two fresh real streams keyed after a cleartext preamble; in every state ExportCryptoState is attempted on both ends and must succeed only if the reference model says established+clean; every frame on the wire is opened by the reference decryptor (nonce continuity across hand-offs, no reuse); each history ends with four further messages. Blob faults: every truncation, magic and version variants must be rejected. Non-trivial = history in which an export was attempted after at least one protected frame.",
+		Rule:   "E-BFS: all histories of length <= D over 12 operations (1/5000-byte message each way, begin/finish partial send, begin/finish partial receive, hand-off of A, hand-off of B, B pipelines two messages of which A reads the first - the second stays in flight on the connection -, A reads the in-flight message) replayed on two fresh real streams keyed after a cleartext preamble; in every state ExportCryptoState is attempted on both ends and must succeed only if the reference model says established+clean; every frame on the wire is opened by the reference decryptor (nonce continuity across hand-offs, no reuse); each history ends with four further messages. Blob faults: every truncation, magic and version variants must be rejected. Non-trivial = history in which an export was attempted after at least one protected frame.",
 		Assume: []string{"a conservative refusal (e.g. after EndMessage until StartMessage) is recorded, not flagged; single-byte corruption of key/IV/counter bytes is outside the statement (counted)"},
 	}
 	p.Gen = func(tier string, yield func(vlib.Case)) {
